@@ -6,6 +6,9 @@ import (
 	"encoding/binary"
 	"fmt"
 	"math/bits"
+	"os"
+	"path/filepath"
+	"strings"
 	"testing"
 	"unsafe"
 
@@ -122,6 +125,48 @@ func emitSum(emit func(string, ...any), seed uint16, parts ...[]byte) {
 	emit("sum %s %d", hlib.Hex(buf), seed)
 }
 
+// emitSeedFoldFamily: seed x data-sum boundaries of the fold rounds. With X the 64-bit sum of the data
+// alone and d the byte-swapped seed, hi32(X)+lo32(X)+d lands on 2^33-2, 2^33-1, 2^33 (33->32-bit round),
+// and for 32-bit X hi16(X)+lo16(X)+d lands on 2^17-2, 2^17-1, 2^17 (17->16-bit rounds): an implementation
+// that merges the seed at a different point of the fold than the reference does is exposed whatever
+// the seed (deterministic, independent of the generator seed).
+func emitSeedFoldFamily(emit func(string, ...any)) {
+	for _, seed := range []uint16{1, 0x0100, 0x00ff, 0xff00, 0x8000, 0x0080, 0xfffe, 0xfeff, 0xffff} {
+		d := uint64(seed>>8 | seed<<8)
+		for _, body := range [][]byte{nil, carryBodies()[2]} {
+			base := accAfterBody(body, 0) // data-only accumulator after the body
+			for _, t := range []uint64{1<<33 - 2, 1<<33 - 1, 1 << 33} {
+				if t-d < 0xffffffff {
+					continue
+				}
+				lo := t - d - 0xffffffff
+				if lo > 0xffffffff {
+					continue
+				}
+				x := uint64(0xffffffff)<<32 | lo
+				emitSum(emit, seed, body, le(land(base, x), 8))
+				emitSum(emit, seed, body, le(land(base, x), 8), []byte{0, 0, 0, 0})
+			}
+			for _, t := range []uint64{1<<17 - 2, 1<<17 - 1, 1 << 17} {
+				if t-d < 0xffff || t-d-0xffff > 0xffff {
+					continue
+				}
+				x := uint64(0xffff)<<16 | (t - d - 0xffff)
+				emitSum(emit, seed, body, le(land(base, x), 8))
+				emitSum(emit, seed, body, le(land(base, x), 4))
+			}
+			// all-ones data of every tail length with this seed
+			for n := 1; n <= 31; n++ {
+				ff := make([]byte, n)
+				for i := range ff {
+					ff[i] = 0xff
+				}
+				emitSum(emit, seed, body, ff)
+			}
+		}
+	}
+}
+
 func emitCarryFamily(emit func(string, ...any), tier string) {
 	const ones = ^uint64(0)
 	pre := []uint64{0, 1, ones, ones - 1}
@@ -229,7 +274,9 @@ func emitCarryFamily(emit func(string, ...any), tier string) {
 }
 
 func gen(r *hlib.Rand, n int, tier, profile string, emit func(string, ...any)) {
+	emit("asmshape")
 	emitCarryFamily(emit, tier)
+	emitSeedFoldFamily(emit)
 	if tier == "thorough" {
 		// the grid of DESIGN §5 C25: every length 0..4096 x 8 start offsets mod 32 x the six fixed seeds +
 		// one random; the pattern rotates (one draw per grid point and generator seed)
@@ -305,9 +352,38 @@ func run(b []byte, off int, seed uint16) string {
 	return fmt.Sprintf("a=%s d=%d g=%d", a, d, g)
 }
 
+// asmShape renders the instruction skeleton of overlay/checksum/checksum_amd64.s: comments, blank lines
+// and #include dropped, white space collapsed, one `;`-separated item per label / instruction. This is
+// the text the Lean model (Model/ChecksumAVX2.lean) was written from; any edit of an instruction, an
+// operand, a label, a stride or the order breaks the comparison, whatever the value stream shows.
+func asmShape() string {
+	root := os.Getenv("VERIF_REPO")
+	if root == "" {
+		root = "/repo"
+	}
+	raw, err := os.ReadFile(filepath.Join(root, "overlay", "checksum", "checksum_amd64.s"))
+	if err != nil {
+		return "unreadable"
+	}
+	var items []string
+	for _, ln := range strings.Split(string(raw), "\n") {
+		if i := strings.Index(ln, "//"); i >= 0 {
+			ln = ln[:i]
+		}
+		ln = strings.Join(strings.Fields(ln), " ")
+		if ln == "" || strings.HasPrefix(ln, "#include") {
+			continue
+		}
+		items = append(items, ln)
+	}
+	return strings.Join(items, "; ")
+}
+
 func newExec(t *testing.T) func([]string) string {
 	return func(a []string) string {
 		switch a[0] {
+		case "asmshape":
+			return asmShape()
 		case "sum":
 			if len(a) != 3 {
 				return "bad-op"
